@@ -1,5 +1,7 @@
 # -*- coding: utf-8 -*-
 
+import copy
+
 from vsg import parser, token
 from vsg.vhdlFile import utils
 
@@ -56,6 +58,9 @@ def get_toi_parameters(oToi):
 
 
 def insert_token(lTokens, index, oToken):
+    # Rules keep the token to insert as a module level template:  insert a copy,
+    # so the template is neither shared between insertions nor altered by later rules.
+    oToken = copy.copy(oToken)
     try:
         oToken = update_code_tags(lTokens[index], oToken)
     except TypeError:
@@ -70,6 +75,7 @@ def insert_token(lTokens, index, oToken):
 
 
 def append_token(lTokens, oToken):
+    oToken = copy.copy(oToken)
     oToken = update_code_tags(lTokens[-1], oToken)
     lTokens.append(oToken)
 
